@@ -809,6 +809,7 @@ func (vw *valWorld) appOp(name string, op ValOp) {
 		}
 		wr.ret = s.Seq()
 		if vw.on("C09") && !wr.refused && hasPerm(vc.perm, "pr") {
+			vw.w.Sim.Count("ctor." + vc.name)
 			vw.record(vc.pos, porcupine.Operation{ClientId: clientID, Input: regInput{write: true, val: wr.value}, Call: int64(wr.inv), Output: "", Return: int64(wr.ret)})
 		}
 	case "aget":
@@ -1010,6 +1011,7 @@ func (vw *valWorld) ctlOp(name string, cl *ref.Client, c *core.Conn, op ValOp) {
 			}
 		}
 		if vw.on("C09") && !wr.refused && hasPerm(vc.perm, "pr") {
+			vw.w.Sim.Count("ctor." + vc.name)
 			vw.record(vc.pos, porcupine.Operation{ClientId: clientID, Input: regInput{write: true, val: wr.value}, Call: int64(wr.inv), Output: "", Return: int64(wr.ret)})
 		}
 	case "ksub", "kunsub":
